@@ -433,5 +433,5 @@ def run(ctx):
         if ctx.tier == "quick" and "q" in tiers:
             ctx.add(n, kq, timeout=900)
         elif ctx.tier == "thorough":
-            ctx.add(n, kt, timeout=3000, min_K=kq or 20, chunk=4)
+            ctx.add(n, kt, timeout=3000, min_K=(kq or 18) - 2, chunk=4, cover_required="_d1" not in n)
     ctx.run()
